@@ -36,7 +36,7 @@ type stName struct{ spelled, name string }
 
 var stNames = []stName{
 	{"力量", "力量"}, {"敏捷", "敏捷"}, {"Str", "Str"}, {"_x", "_x"}, {"射击:弓箭", "射击:弓箭"},
-	{"'x1'", "x1"}, {"'a b'", "a b"}, {"'力量2'", "力量2"},
+	{"'x1'", "x1"}, {"'a b'", "a b"}, {"'力量2'", "力量2"}, {"' a b '", " a b "}, {"'hp '", "hp "},
 }
 
 type stVal struct{ text, canon string }
@@ -48,7 +48,9 @@ func stAssignSpellings(full bool) []stEdit {
 	var out []stEdit
 	for ni, n := range stNames {
 		vals := stVals
-		if !full && ni != 0 && ni != 5 {
+		if !full && ni >= 8 {
+			vals = stVals[:1] // quick: the names with blanks at their edges with one value (all spellings in k=1)
+		} else if !full && ni != 0 && ni != 5 {
 			vals = stVals[:5] // quick: the values that continue after a parenthesised group with one plain and one quoted name only
 		}
 		for _, v := range vals {
@@ -75,7 +77,7 @@ func stAssignSpellings(full bool) []stEdit {
 			out = append(out, stEdit{Type: "set", Name: n.name, Val: v.canon, Src: n.spelled + ":" + v.text})
 			out = append(out, stEdit{Type: "set", Name: n.name, Val: v.canon, Src: n.spelled + " = " + v.text})
 		}
-		for _, e := range []string{"1d6+2", "(1d6)", "2d1"} {
+		for _, e := range []string{"1d1+10", "(2d1)", "3d1+20"} { // dice of one side: the value is known, and differs per expression
 			out = append(out, stEdit{Type: "set", Name: n.name, Val: "&(" + e + ")", Text: e, Src: "&" + n.spelled + "=" + e})
 			if full {
 				// (a blank after the ':'/'=' of a computed edit is not an accepted spelling: the grammar's look-ahead has no 'sp' there)
@@ -97,7 +99,7 @@ func stModSpellings(full bool) []stEdit {
 	for ni, n := range stNames {
 		for _, o := range ops {
 			for vi, v := range stVals {
-				if !full && vi >= 5 && ni != 0 && ni != 5 {
+				if !full && (vi >= 5 && ni != 0 && ni != 5 || ni >= 8 && vi >= 1) {
 					continue
 				}
 				txt := v.text
@@ -213,7 +215,9 @@ func c18Run(raw json.RawMessage) harn.Result {
 	}
 	vm := drv.NewVM(drv.Cfg{})
 	var log []stCall
+	var delivered []*ds.VMValue
 	vm.Config.CallbackSt = func(_type string, name string, val *ds.VMValue, extra *ds.VMValue, op string, detail string) {
+		delivered = append(delivered, val)
 		e := stCall{Type: _type, Name: name, Val: drv.Canon(val), Op: op, Detail: detail}
 		if extra != nil {
 			e.Extra = drv.Canon(extra)
@@ -245,6 +249,25 @@ func c18Run(raw json.RawMessage) harn.Result {
 		}
 		if g.Val != e.Val {
 			viol("C18:value", fmt.Sprintf("edit #%d %q: value %s, expected %s", i, e.Src, g.Val, e.Val))
+		}
+		// a delivered computed value must EVALUATE to what its text says (the host stores it and evaluates it later)
+		if strings.HasPrefix(e.Val, "&(") && i < len(delivered) && delivered[i] != nil && delivered[i].TypeId == ds.VMTypeComputedValue {
+			want := ""
+			ref := drv.NewVM(drv.AllOn())
+			if err := ref.Run(e.Text); err == nil {
+				want = drv.Canon(ref.Ret)
+			}
+			got := ""
+			host := drv.NewVM(drv.AllOn())
+			if site, p := harn.Guard(func() {
+				if r := delivered[i].ComputedExecute(host, &ds.BufferSpan{}); r != nil && host.Error == nil {
+					got = drv.Canon(r)
+				}
+			}); p {
+				viol(site, fmt.Sprintf("edit #%d %q: panic evaluating the delivered computed value", i, e.Src))
+			} else if got != want {
+				viol("C18:computed-value-does-not-evaluate-to-its-text", fmt.Sprintf("edit #%d %q: the delivered computed value evaluates to %s, its text %q to %s", i, e.Src, got, e.Text, want))
+			}
 		}
 		if g.Extra != e.Extra { // every edit: an edit without a multiplier must be reported without one ("" = nil)
 			viol("C18:extra", fmt.Sprintf("edit #%d %q: extra %q, expected %q", i, e.Src, g.Extra, e.Extra))
